@@ -211,19 +211,32 @@ _c("C20",
 
 _c("C13",
    "Coq theorems (Props/C13.v, closed under the global context) over an executable model of the annotation/assignment conversion "
-   "(Struct/Spelling.v: add_annotations_to_class_dict, get_typing_lib_info, FieldMeta/_CollectionMeta.__getitem__, |) that uses the "
-   "builtin->Field table regenerated from convert_basic_types on every run (Gen/TypeMapping.v): the inductively generated congruence "
-   "sp_eq of the property's spelling pairs (19 rules, any nesting) implies convert s1 = convert s2 (C13_equiv, mutual induction on "
+   "(Struct/Spelling.v: add_annotations_to_class_dict, get_typing_lib_info, FieldMeta/_CollectionMeta.__getitem__, |, typing's Union "
+   "flattening, the three default paths of '=' (Field class / typing instance / Field instance), _evaluate_if_future_annotations) that "
+   "uses the builtin->Field table regenerated from convert_basic_types (Gen/TypeMapping.v) and the guards of the conversion glue "
+   "re-read from the source text on every run (Gen/AnnotGuards.v: the `len(v) < 50` bound of the __future__ evaluation, the "
+   "`if default:` test of Field.__init__, the mutable-default type tuple; the shapes of _handle_typing_optional, AnyOf.__init__ and the "
+   "required-set rule are pinned by C13_src_rules): the inductively generated congruence sp_eq of the property's spelling pairs (21 "
+   "rules incl. nested/flattened typing Unions, any nesting) implies convert s1 = convert s2 (C13_equiv, mutual induction on "
    "derivations), hence identical vset for every value and identical result of any observer such as serialization (C13_behaviour, "
-   "C13_observer); declaration forms (annotation vs assignment, '=' vs default= for truthy defaults, Optional vs _optional) give equal "
-   "field, default and required-ness (C13_decl, C13_class); the falsy-default clause is refuted by witness (F12). Every semantic field "
-   "is rendered in all its spellings, realised in module files with and without 'from __future__ import annotations', and compared on "
-   "field sets, required sets, accept/reject/exception class/normal form/serialization; reified real Field objects are compared with "
-   "the model's convert inside Coq.",
-   "Trusted: Coq kernel + vm_compute; Spelling.v hand-written; table extractor harness/genmods/type_mapping.py (raises on anything "
-   "unrecognised); typing's own Union flattening is CPython's; frame-inspection glue exercised by the harness only.",
-   "Coq proof (congruence of spellings by mutual induction on derivations, parametric in the generated type table) + "
-   "model/implementation correspondence in vm_compute")
+   "C13_observer); which annotations mark their field optional is characterised exactly for Unions of any arity with None at any "
+   "position (C13_optional_marking, C13_marking_invariant) and `a: Union[..None..]` unlisted = `a: AnyOf[..None..]` listed in "
+   "_optional (C13_optional_decl, C13_union_decl); declaration forms (annotation vs assignment, '=' vs default= for truthy immutable "
+   "defaults) give equal field, default and required-ness (C13_decl, C13_class); a class whose annotation texts pass the source's "
+   "guard is unchanged by `from __future__ import annotations` (C13_future); the clauses that are false of the code are refuted by "
+   "witness: falsy default (F12), list/dict/set default (C13_mutable_default_refuted), annotations of 50+ characters under the "
+   "__future__ import (C13_future_refuted). Every semantic field is rendered in all its spellings, realised in module files with and "
+   "without the __future__ import, and compared on field sets, required sets, accept/reject/exception class/normal form/"
+   "serialization/deserialization of the serialized form; besides the seeded random classes, VERIF_SEED-independent lattices "
+   "enumerate every Union shape (arity 2-4 x position of None x nesting x listed/unlisted), scalar and mutable defaults x every "
+   "declaration form, and annotation lengths around the __future__ bound; reified real Field objects, (field, default, required) of "
+   "declarations and the same under the __future__ import are compared with the model inside Coq.",
+   "Trusted: Coq kernel + vm_compute; Spelling.v hand-written; extractors harness/genmods/type_mapping.py and annot_guards.py (fail "
+   "closed: unrecognised shape -> C13_src_rules does not build); typing's own Union flattening/de-duplication and its "
+   "argument cache are CPython's (Unions typing de-duplicates, and argument Unions in a non-canonical member order, are not "
+   "generated); frame-inspection glue exercised by the harness only; `= None` and callable defaults are outside the explored space.",
+   "Coq proof (congruence of spellings by mutual induction on derivations, parametric in the generated type table and guards) + "
+   "model/implementation correspondence in vm_compute + deterministic shape lattices")
 
 _c("C01",
    "Coq theorems (Props/C01.v, closed under the global context) over the executable model of the validating entry points "
